@@ -32,6 +32,50 @@ func (c *Ctx) entryFor(fr *Frame) *State { return c.entry }
 // invariant, so it is checked, not trusted (overflow of i + K would make the back-edge assertion fail).
 func (c *Ctx) autoInvariants(fr *Frame, li *loopInfo, st *State, phis map[*ssa.Phi]Val) []string {
 	var out []string
+	// freshness of accumulators: a slice/map/pointer loop variable that the (syntactic) origin analysis
+	// shows to be built only from allocations of this activation stays fresh
+	if fr == c.topFrame {
+		for _, ins := range li.header.Instrs {
+			phi, ok := ins.(*ssa.Phi)
+			if !ok {
+				break
+			}
+			_, isSl := phi.Type().Underlying().(*types.Slice)
+			if !(isSl || isRefLike(phi.Type())) || c.mods.origin(phi, 0) != orFresh {
+				continue
+			}
+			var cur string
+			if phis != nil {
+				if v, ok := phis[phi]; ok {
+					cur = c.term(v)
+				}
+			}
+			if cur == "" {
+				if v, ok := fr.vals[phi]; ok {
+					cur = c.term(v)
+				}
+			}
+			if cur == "" {
+				continue
+			}
+			if isSl {
+				cur = "(s_arr " + cur + ")"
+			}
+			out = append(out, fmt.Sprintf("(or (= %s 0) (>= %s %s))", cur, cur, c.entry.alloc))
+		}
+		// address-taken local slice variables (captured by closures): same, through their cell
+		for a, cur := range st.locals {
+			_, isSl := a.Type().(*types.Pointer).Elem().Underlying().(*types.Slice)
+			if !isSl || a.Parent() != fr.fn {
+				continue
+			}
+			probe := loadOf(a)
+			if probe == nil || c.mods.origin(probe, 0) != orFresh {
+				continue
+			}
+			out = append(out, fmt.Sprintf("(or (= (s_arr %s) 0) (>= (s_arr %s) %s))", cur, cur, c.entry.alloc))
+		}
+	}
 	for _, ins := range li.header.Instrs {
 		phi, ok := ins.(*ssa.Phi)
 		if !ok {
@@ -189,13 +233,13 @@ func (c *Ctx) guardBound(fr *Frame, li *loopInfo, st *State, phi *ssa.Phi, dir i
 	// guard true: phi + k0 OP Y ; next = phi + k
 	switch {
 	case dir > 0 && bo.Op == token.LSS: // phi < Y - k0  => next <= Y - k0 + k - 1
-		return fmt.Sprintf("(+ %s %d)", yt, -k0+k-1)
+		return fmt.Sprintf("(+ %s %s)", yt, smtInt(-k0+k-1))
 	case dir > 0 && bo.Op == token.LEQ:
-		return fmt.Sprintf("(+ %s %d)", yt, -k0+k)
+		return fmt.Sprintf("(+ %s %s)", yt, smtInt(-k0+k))
 	case dir < 0 && bo.Op == token.GTR: // phi > Y - k0 => next >= Y - k0 + k + 1   (k negative)
-		return fmt.Sprintf("(+ %s %d)", yt, -k0+k+1)
+		return fmt.Sprintf("(+ %s %s)", yt, smtInt(-k0+k+1))
 	case dir < 0 && bo.Op == token.GEQ:
-		return fmt.Sprintf("(+ %s %d)", yt, -k0+k)
+		return fmt.Sprintf("(+ %s %s)", yt, smtInt(-k0+k))
 	}
 	return ""
 }
@@ -306,6 +350,8 @@ func VerifyFunction(w *World, sp *Specs, mods *ModAnalysis, fn *ssa.Function, fa
 var debugPanic = false
 
 func (c *Ctx) run() {
+	c.sorts.constArr = c.constArray
+	defer func() { c.sorts.constArr = nil }()
 	fn := c.fn
 	st := &State{heap: map[string]string{}, locals: map[*ssa.Alloc]string{}, alloc: "alloc_entry", held: "held_entry"}
 	c.declare("alloc_entry", "Int")
@@ -316,10 +362,12 @@ func (c *Ctx) run() {
 	fr := &Frame{fn: fn, vals: map[ssa.Value]Val{}, specVars: map[string]TV{}}
 	c.topFrame = fr
 	con := c.contract
+	c.emitAxioms(st)
 	for i, p := range fn.Params {
 		v := c.havocVal("p_"+p.Name(), p.Type())
 		fr.vals[p] = v
 		c.assumeTyped("true", v, p.Type(), st, 2)
+		c.assumeInv("true", v.T, p.Type(), st)
 		nm := p.Name()
 		if con != nil && i < len(con.ParamNames) && con.ParamNames[i] != "" && con.ParamNames[i] != "_" {
 			nm = con.ParamNames[i]
@@ -335,11 +383,11 @@ func (c *Ctx) run() {
 			c.assume("true", c.nonNil(v.T))
 		}
 	}
-	c.emitAxioms(st)
 	ev := c.newSpecEval(fr, st, c.entry)
 	if con == nil {
 		c.defaultPreconditions(fr, st)
 	}
+	c.assumeParamInvs(fr, st)
 	if con != nil {
 		c.evalLets(ev, con)
 		for k, v := range ev.vars {
@@ -374,6 +422,23 @@ func (c *Ctx) run() {
 			Reach: "true", Goal: "true", Detail: "requires && background is satisfiable (expects sat)", ctx: c, Track: map[string]string{}})
 	}
 	rets := c.execBody(fr, st, "true")
+	// well-formedness obligations at every return
+	if c.wants("WF") {
+		for ri, r := range rets {
+			if c.valueResult(fn) && len(r.vals) == 1 && r.vals[0].T != "" {
+				c.oblige("WF", fmt.Sprintf("WF.result.ret%d", ri+1), r.pos, r.reach, c.isValTerm(r.vals[0].T),
+					"the result must be a Pangaea value (non-nil, not a DeferObj/ReturnObj/YieldObj)")
+			}
+			for _, a := range fr.allocs {
+				for _, ti := range c.typeInvsFor(a.t) {
+					if f, ok := c.invTerm(ti, a.ref, types.NewPointer(a.t), r.st); ok {
+						c.oblige("WF", fmt.Sprintf("WF.inv.%s.ret%d", sanitize(ti.Type), ri+1), r.pos, and(r.reach, a.reach), f,
+							"an object allocated here must satisfy the invariant of "+ti.Type+" ("+ti.Text+")")
+					}
+				}
+			}
+		}
+	}
 	if con == nil {
 		return
 	}
@@ -453,6 +518,38 @@ func (c *Ctx) applyModsImpl(st *State, ms *ModSet) {
 		st.epoch = c.epochSeq
 		return
 	}
+	if ms.EC {
+		// effects bounded by the EC frame: EC arrays are unconstrained afterwards; every other array keeps
+		// the entries of pre-existing references (the callee may still allocate and initialise fresh objects)
+		for _, n := range sortedKeys(c.mods.ECArrays) {
+			c.arr(st, n, c.mods.ECArrays[n])
+			c.havocArr(st, n)
+		}
+		for _, n := range sortedKeys(ms.Arrays) {
+			if _, isEC := c.mods.ECArrays[n]; !isEC {
+				c.arr(st, n, ms.Arrays[n])
+				c.havocArr(st, n)
+			}
+		}
+		for _, n := range sortedKeys(st.heap) {
+			if _, ok := c.arrays[n]; !ok {
+				continue
+			}
+			if _, isEC := c.mods.ECArrays[n]; isEC {
+				continue
+			}
+			if _, written := ms.Arrays[n]; written {
+				continue
+			}
+			before := st.heap[n]
+			c.havocArr(st, n)
+			after := st.heap[n]
+			r := c.fresh("r")
+			c.lines = append(c.lines, fmt.Sprintf("(assert (forall ((%s Int)) (! (=> (< %s %s) (= (select %s %s) (select %s %s))) :pattern ((select %s %s)))))",
+				r, r, old, after, r, before, r, after, r))
+		}
+		return
+	}
 	if ms.FreshTop {
 		// every known array: entries of pre-existing references are preserved
 		for _, n := range sortedKeys(st.heap) {
@@ -490,7 +587,10 @@ func describeMods(ms *ModSet) string {
 		return "none"
 	}
 	if ms.Top {
-		return "TOP"
+		return "TOP (" + ms.TopWhy + ")"
+	}
+	if ms.EC {
+		return "EC+" + strings.Join(sortedKeys(ms.Arrays), ",")
 	}
 	out := strings.Join(sortedKeys(ms.Arrays), ",") + " fresh:" + strings.Join(sortedKeys(ms.Fresh), ",")
 	for pi, arrs := range ms.ByParam {
@@ -559,7 +659,7 @@ func (c *Ctx) defaultFactsFor(term string, t types.Type, st *State) []string {
 		return []string{c.isValTerm(term)}
 	case ts == "[]"+repoMod+"/object.PanObject":
 		k := c.fresh("k")
-		a := c.arr(st, c.sorts.ElemArray("Int"), "Int")
+		a := c.arr(st, c.sorts.ElemArrayT(t.Underlying().(*types.Slice).Elem()), "Int")
 		el := fmt.Sprintf("(select (select %s (s_arr %s)) (+ (s_off %s) %s))", a, term, term, k)
 		return []string{fmt.Sprintf("(forall ((%s Int)) (! (=> (and (<= 0 %s) (< %s (s_len %s))) %s) :pattern (%s)))", k, k, k, term, c.isValTerm(el), el)}
 	}
@@ -576,4 +676,238 @@ func (c *Ctx) defaultFactsFor(term string, t types.Type, st *State) []string {
 		return []string{c.nonNil(term)}
 	}
 	return nil
+}
+
+// loadOf returns some load instruction of the local variable cell (to query the origin analysis).
+func loadOf(a *ssa.Alloc) ssa.Value {
+	if refs := a.Referrers(); refs != nil {
+		for _, r := range *refs {
+			if u, ok := r.(*ssa.UnOp); ok && u.Op == token.MUL {
+				return u
+			}
+		}
+	}
+	return nil
+}
+
+// applyModsExcept: the callee writes only the listed objects (plus fresh memory): every array of its
+// inferred effect set gets a new version that agrees with the old one except at those references.
+func (c *Ctx) applyModsExcept(st *State, ms *ModSet, refs []string) {
+	old := st.alloc
+	st.alloc = c.havoc("alloc", "Int")
+	c.assume("true", fmt.Sprintf("(>= %s %s)", st.alloc, old))
+	if ms == nil {
+		return
+	}
+	names := map[string]string{}
+	for n, s := range ms.Arrays {
+		names[n] = s
+	}
+	for n, s := range ms.Fresh {
+		names[n] = s
+	}
+	for _, arrs := range ms.ByParam {
+		for n, s := range arrs {
+			names[n] = s
+		}
+	}
+	if ms.Top || ms.EC || ms.FreshTop {
+		for n := range st.heap {
+			if s, ok := c.arrays[n]; ok {
+				names[n] = s
+			}
+		}
+		if ms.EC || ms.Top {
+			for n, s := range c.mods.ECArrays {
+				names[n] = s
+			}
+		}
+	}
+	for _, n := range sortedKeys(names) {
+		before := c.arr(st, n, names[n])
+		c.havocArr(st, n)
+		after := st.heap[n]
+		if _, isEC := c.mods.ECArrays[n]; isEC && (ms.EC || ms.Top) {
+			continue
+		}
+		r := c.fresh("r")
+		var ne []string
+		for _, x := range refs {
+			ne = append(ne, fmt.Sprintf("(not (= %s %s))", r, x))
+		}
+		c.lines = append(c.lines, fmt.Sprintf("(assert (forall ((%s Int)) (! (=> (and (< %s %s) %s) (= (select %s %s) (select %s %s))) :pattern ((select %s %s)))))",
+			r, r, old, and(ne...), after, r, before, r, after, r))
+	}
+	if (ms.Locks || ms.Top) && c.wants("LOCK") {
+		st.held = c.havoc("held", "Int")
+	}
+}
+
+// ---- well-formedness layer (C01): type invariants, value results, container elements ----
+
+func (c *Ctx) typeInvsFor(t types.Type) []*TypeInv {
+	n := namedOf(t)
+	if n == nil || n.Obj().Pkg() == nil {
+		return nil
+	}
+	key := n.Obj().Pkg().Name() + "." + n.Obj().Name()
+	var out []*TypeInv
+	for _, ti := range c.sp.TypeInvs {
+		if ti.Type == key {
+			out = append(out, ti)
+		}
+	}
+	return out
+}
+
+// invTerm evaluates the invariant of type t for the value `self` in state st.
+func (c *Ctx) invTerm(ti *TypeInv, self string, t types.Type, st *State) (string, bool) {
+	ev := c.newSpecEval(nil, st, st)
+	ev.pkg = ti.Pkg
+	ev.vars["self"] = TV{T: self, Typ: t}
+	tv, err := ev.eval(ti.Expr)
+	if err != nil {
+		c.unsupportedf("invariant %s: %v", ti.Type, err)
+		return "", false
+	}
+	return tv.T, true
+}
+
+// assumeInv: the type invariant of a value that comes from outside this activation's own allocations.
+func (c *Ctx) assumeInv(reach, term string, t types.Type, st *State) {
+	if c.specDepth > 0 || c.noWF {
+		return
+	}
+	var base types.Type = t
+	isPtr := false
+	if p, ok := t.Underlying().(*types.Pointer); ok {
+		base = p.Elem()
+		isPtr = true
+	}
+	if _, isStruct := base.Underlying().(*types.Struct); !isStruct {
+		return
+	}
+	invs := c.typeInvsFor(base)
+	if len(invs) == 0 {
+		return
+	}
+	for _, ti := range invs {
+		var selfT types.Type = base
+		if isPtr {
+			selfT = t
+		}
+		f, ok := c.invTerm(ti, term, selfT, st)
+		if !ok {
+			continue
+		}
+		if isPtr {
+			c.assume(reach, implies(c.nonNil(term), f))
+		} else {
+			c.assume(reach, f)
+		}
+	}
+}
+
+// valueResult: functions of the declared packages whose single result is object.PanObject return a value.
+func (c *Ctx) valueResult(fn *ssa.Function) bool {
+	if fn == nil {
+		return false
+	}
+	res := fn.Signature.Results()
+	if res.Len() != 1 || types.TypeString(res.At(0).Type(), nil) != repoMod+"/object.PanObject" {
+		return false
+	}
+	root := fn
+	for root.Parent() != nil {
+		root = root.Parent()
+	}
+	pk := fnPkg(root)
+	if pk == nil {
+		return false
+	}
+	for _, p := range c.sp.ValueResultPkgs {
+		if shortPkg(pk.Pkg.Path()) == p {
+			return true
+		}
+	}
+	return false
+}
+
+func isPanObjectIface(t types.Type) bool {
+	ts := types.TypeString(t, nil)
+	return ts == repoMod+"/object.PanObject" || ts == repoMod+"/object.PanScalar"
+}
+
+// wfStore: what is written into a container element / map value must be a value.
+func (c *Ctx) wfStore(reach string, pos token.Pos, term string, t types.Type, st *State, what string) {
+	if !c.wants("WF") || c.specDepth > 0 {
+		return
+	}
+	if isPanObjectIface(t) {
+		c.oblige("WF", "WF.store", pos, reach, c.isValTerm(term), what+": the stored object must be a Pangaea value (non-nil, not an interpreter-internal carrier)")
+		return
+	}
+	if _, isStruct := t.Underlying().(*types.Struct); isStruct {
+		for _, ti := range c.typeInvsFor(t) {
+			if f, ok := c.invTerm(ti, term, t, st); ok {
+				c.oblige("WF", "WF.store", pos, reach, f, what+": the stored "+ti.Type+" must satisfy its invariant ("+ti.Text+")")
+			}
+		}
+	}
+}
+
+// wfRead: what is read from a container element / map value is a value.
+func (c *Ctx) wfRead(reach string, term string, t types.Type, st *State) {
+	if c.specDepth > 0 || c.noWF {
+		return
+	}
+	if isPanObjectIface(t) {
+		c.assume(reach, c.isValTerm(term))
+		return
+	}
+	if _, isStruct := t.Underlying().(*types.Struct); isStruct {
+		c.assumeInv(reach, term, t, st)
+	}
+}
+
+// assumeParamInvs: named-parameter invariants (`paraminv`), e.g. the container of built-ins that start-up
+// dependency injection hands to every props constructor.
+func (c *Ctx) assumeParamInvs(fr *Frame, st *State) {
+	for _, pi := range c.sp.ParamInvs {
+		var v Val
+		var t types.Type
+		found := false
+		for _, p := range c.fn.Params {
+			if p.Name() == pi.Name {
+				v, t, found = fr.vals[p], p.Type(), true
+			}
+		}
+		for _, fv := range c.fn.FreeVars {
+			if fv.Name() == pi.Name {
+				val := fr.vals[fv]
+				if pt, ok := fv.Type().Underlying().(*types.Pointer); ok {
+					if _, isMap := pt.Elem().Underlying().(*types.Map); isMap {
+						l := c.asLoc(val, fv.Type(), st)
+						val = Val{T: c.load(l, st), Typ: pt.Elem()}
+						v, t, found = val, pt.Elem(), true
+						continue
+					}
+				}
+				v, t, found = val, fv.Type(), true
+			}
+		}
+		if !found || v.T == "" {
+			continue
+		}
+		ev := c.newSpecEval(nil, st, st)
+		ev.pkg = pi.Pkg
+		ev.vars[pi.Name] = TV{T: v.T, Typ: t}
+		tv, err := ev.eval(pi.Expr)
+		if err != nil {
+			c.unsupportedf("paraminv %s: %v", pi.Name, err)
+			continue
+		}
+		c.assume("true", tv.T)
+		c.noteAssumption("parameter invariant assumed for `" + pi.Name + "`: " + pi.Text)
+	}
 }
